@@ -54,11 +54,13 @@ Form(c) == IF c \in AEAD THEN "enc0" ELSE "mac0"
 Dir(t) == IF t % 2 = 1 THEN "o2d" ELSE "d2o"
 
 AllClasses == {"flip_ct", "flip_iv", "flip_alg", "flip_tag", "strip_mac0", "strip_mac0+flip_ct", "strip_mac0+flip_iv",
-               "strip_mac0+iv_len", "strip_mac0+empty_ct", "strip_mac0+truncate", "wrap_mac0", "retag", "drop_iv", "iv_len", "empty_ct", "truncate", "substitute", "plaintext", "bit_any"}
+               "strip_mac0+iv_len", "strip_mac0+empty_ct", "strip_mac0+truncate", "wrap_mac0", "retag", "drop_iv", "iv_len", "empty_ct", "truncate", "substitute", "plaintext", "bit_any",
+               "short_tag+flip_ct", "short_tag+flip_iv"}
 (* classes that need a MAC wrapper / must not have one *)
 Applicable(c, cls) ==
     CASE cls \in {"flip_tag", "strip_mac0", "strip_mac0+flip_ct", "strip_mac0+flip_iv",
-                  "strip_mac0+iv_len", "strip_mac0+empty_ct", "strip_mac0+truncate"} -> c \notin AEAD
+                  "strip_mac0+iv_len", "strip_mac0+empty_ct", "strip_mac0+truncate",
+                  "short_tag+flip_ct", "short_tag+flip_iv"} -> c \notin AEAD
       [] cls = "wrap_mac0" -> c \in AEAD
       [] OTHER -> TRUE
 
@@ -87,6 +89,9 @@ Mutants(cls, o, others) ==
       [] cls = "flip_iv"            -> {[o EXCEPT !.iv = [t |-> "flipped", of |-> o.iv]]}
       [] cls = "flip_alg"           -> {[o EXCEPT !.alg = "other"]}
       [] cls = "flip_tag"           -> {[o EXCEPT !.tag = [t |-> "badtag"]]}
+      \* the MAC value shortened or emptied (a prefix of the genuine tag) and the protected content altered
+      [] cls = "short_tag+flip_ct"  -> {[o EXCEPT !.tag = [t |-> "badtag"], !.ct = [t |-> "garbled", of |-> o.ct]]}
+      [] cls = "short_tag+flip_iv"  -> {[o EXCEPT !.tag = [t |-> "badtag"], !.iv = [t |-> "flipped", of |-> o.iv]]}
       [] cls = "strip_mac0"         -> {[o EXCEPT !.form = "enc0", !.tag = NoTag]}
       [] cls = "strip_mac0+flip_ct" -> {[o EXCEPT !.form = "enc0", !.tag = NoTag, !.ct = [t |-> "garbled", of |-> o.ct]]}
       [] cls = "strip_mac0+flip_iv" -> {[o EXCEPT !.form = "enc0", !.tag = NoTag, !.iv = [t |-> "flipped", of |-> o.iv]]}
